@@ -50,3 +50,8 @@ pub fn empty_bytes() -> (r: &'static [u8]) ensures r@.len() == 0 { &[] }
 pub fn runtime_assert(c: bool) requires c {}
 pub assume_specification[i32::is_negative](x: i32) -> (r: bool) ensures r == (x < 0);
 pub assume_specification[i32::is_positive](x: i32) -> (r: bool) ensures r == (x > 0);
+// std combinators without closures that vstd does not specify
+pub assume_specification<T, E>[Result::<T, E>::unwrap_or](r: Result<T, E>, d: T) -> (o: T)
+    ensures o == (match r { Ok(v) => v, Err(_) => d });
+pub assume_specification<T, E, F>[Result::<T, E>::or](r: Result<T, E>, res: Result<T, F>) -> (o: Result<T, F>)
+    ensures o == (match r { Ok(v) => Ok::<T, F>(v), Err(_) => res });
